@@ -190,6 +190,21 @@ func execConc(tr *Trace, cv concVariant, stats *Stats) ([]commitPoint, *Violatio
 				}
 			}
 			points = append(points, cp)
+			if st.Op == "commit" {
+				// the cache a parallel commit leaves behind is the one a commit on one goroutine leaves behind: a slab
+				// whose deletion has just been committed is gone for every reader of this storage
+				for _, e := range w.Ledger.Log[logStart:] {
+					if e.Kind != IODelete {
+						continue
+					}
+					if _, still := w.Ledger.Regs[e.ID]; still {
+						continue // written again later in the same commit sequence (retry)
+					}
+					if slab, found, err := w.Storage.Retrieve(e.ID.SlabID()); err == nil && (found || slab != nil) {
+						return points, w.viol("conc.cache", "after the commit at step %d (%s, %d workers) the slab %s, whose deletion was committed, is still served by the storage", i, flavourName(st.Flavour), st.Workers, e.ID)
+					}
+				}
+			}
 		}
 	}
 	if v := w.DeepLive(cmpOpts{}); v != nil {
@@ -511,6 +526,9 @@ func init() {
 		bv.Exec = ExecVariant{Workers: 1, Seed: cv.Exec.Seed}
 		base, v := execConc(tr, bv, NewStats())
 		if v != nil {
+			if v.Class == "conc.error-category" {
+				return v // the worker path with one worker already disagrees with the serial path
+			}
 			return &Violation{Class: "base." + v.Class, Step: v.Step, Msg: v.Msg}
 		}
 		other, v := execConc(tr, cv, agg)
